@@ -143,6 +143,8 @@ class SeqModel:
                 out.append(Violation('idle-start', 'IDLE',
                            f'IDLE not accepted: {st.raw!r}'))
         else:
+            # the view the client holds when it sends the command
+            ctx.extra['sent_view'] = [sl.uid for sl in ctx.shadows[si].slots]
             st = ctx.do(si, ev['line'])
             if st.tagged is None:
                 out.append(Violation('no-tagged-response', ev['name'],
@@ -208,6 +210,55 @@ class SeqModel:
                         out.append(Violation('search.uids', name,
                                    f'UID SEARCH ALL returned {got}, client '
                                    f'view {uids}'))
+            out += self._interpretation(ctx, ev, st)
+        return out
+
+    # sequence numbers in a command denote the messages of the view the
+    # client held when it sent the command
+    _SEQ_ADDRESSED = {
+        'COPY1-INBOX': (1, 'copy'), 'COPY2-Other': (2, 'copy'),
+        'MOVE1-Other': (1, 'copy'),
+        'STORE1+Del': (1, (b'\\deleted', True)),
+        'STORE2+Del.SILENT': (2, (b'\\deleted', True)),
+        'STORE3Flagged': (3, (b'\\flagged', True)),
+    }
+
+    def _interpretation(self, ctx, ev, st):
+        spec = self._SEQ_ADDRESSED.get(ev['name'])
+        view = ctx.extra.get('sent_view')
+        if spec is None or view is None:
+            return []
+        seq, what = spec
+        if seq > len(view) or view[seq - 1] is None:
+            return []
+        uid = view[seq - 1]
+        name = ev['name']
+        out = []
+        if what == 'copy':
+            code = st.tagged.code_arg if st.tagged.code == b'COPYUID' \
+                else None
+            for r in st.responses:
+                if r.kind == 'untagged' and r.code == b'COPYUID':
+                    code = r.code_arg
+            if code is not None:
+                from ..refmodel.seqset import members
+                src = sorted(members(code[1], 1 << 31))
+                if src != [uid]:
+                    out.append(Violation('interpret.copy-source', name,
+                               f'session {ev["s"]}: {name} sent while the '
+                               f'client held {view}; sequence number {seq} '
+                               f'is UID {uid} but COPYUID names source '
+                               f'{src}'))
+        else:
+            flag, _ = what
+            mset = ctx.world.mailbox_set('alice')
+            for u, m in mset._inbox._messages.items():
+                has = flag in {bytes(f).lower() for f in m.permanent_flags}
+                if u == uid and not has:
+                    out.append(Violation('interpret.store-target', name,
+                               f'session {ev["s"]}: {name} sent while the '
+                               f'client held {view}; UID {uid} (sequence '
+                               f'number {seq}) did not receive the flag'))
         return out
 
     # ---- keys --------------------------------------------------------------
